@@ -20,6 +20,16 @@ def closure(ctx, exe, tag, pr, props):
                expect_states=r.distinct)
 
 
+def heap_line(o):
+    return {"push": lambda: f"0 {o['n']}", "pop": lambda: "1", "clear": lambda: "3"}[o["op"]]()
+
+
+def generated(ctx, exe, tag, pr, depth, num, props):
+    """spec -> code: behaviours chosen by TLC's simulator on the Heap machine, replayed into src/heap.c"""
+    gen_replay(ctx, tag, "GenHeap", pdef(pr), consts(pr), depth, num, heap_line, exe, ["".join(map(str, pr)), 0, 1],
+               "TraceHeap", consts(pr), props)
+
+
 def run(ctx):
     props = {ctx.pid}
     exe = build(ctx, "drv_heap", "drv_heap.c", LIB)
@@ -27,12 +37,14 @@ def run(ctx):
     closure(ctx, exe, "p6", [1, 1, 2, 2, 3, 3], props)
     if ctx.quick:
         closure(ctx, exe, "p7", [2, 1, 3, 1, 2, 3, 2], props)
+        generated(ctx, exe, "gen-p14", [1 + rng.randrange(5) for _ in range(14)], 30, 40, props)
         n, steps = 64, 3000
     else:
         closure(ctx, exe, "p8", [2, 1, 3, 1, 2, 3, 2, 4], props)
         closure(ctx, exe, "p9", [1, 2, 3, 4, 5, 6, 7, 8, 9], props)
         # objects set up with the CSTL_*_INITIALIZER macros instead of the init functions: same closure, same model
         closure(ctx, build(ctx, "drv_heap_macro", "drv_heap.c", LIB, defs=["USE_INITIALIZER"]), "p6-macro", [1, 1, 2, 2, 3, 3], props)
+        generated(ctx, exe, "gen-p24", [1 + rng.randrange(6) for _ in range(24)], 60, 300, props)
         n, steps = 300, 25000
     pr = [1 + rng.randrange(6) for _ in range(n)]
     impl_phase(ctx, "rand", exe, ["random", ctx.seed, steps, 2], ["".join(map(str, pr)), 1, 1], "TraceHeap", pdef(pr), consts(pr), props)
